@@ -266,10 +266,13 @@ namespace BitSerializer::Csv::Detail
 			mValueIndex = it - mHeaders.cbegin();
 		}
 
-		const auto& valueMeta = mRowValuesMeta.at(mValueIndex);
+		auto& valueMeta = mRowValuesMeta.at(mValueIndex);
 		if (valueMeta.HasEscapedChars)
 		{
 			out_value = UnescapeValue(mDecodedBuffer.data() + valueMeta.Offset, mDecodedBuffer.data() + valueMeta.Offset + valueMeta.Size);
+			// The value is unescaped in place, remember it for the case when the same value is requested again
+			valueMeta.Size = out_value.size();
+			valueMeta.HasEscapedChars = false;
 		}
 		else
 		{
@@ -282,10 +285,13 @@ namespace BitSerializer::Csv::Detail
 	{
 		if (mValueIndex < mRowValuesMeta.size())
 		{
-			const auto& valueMeta = mRowValuesMeta.at(mValueIndex);
+			auto& valueMeta = mRowValuesMeta.at(mValueIndex);
 			if (valueMeta.HasEscapedChars)
 			{
 				out_value = UnescapeValue(mDecodedBuffer.data() + valueMeta.Offset, mDecodedBuffer.data() + valueMeta.Offset + valueMeta.Size);
+				// The value is unescaped in place, remember it for the case when the same value is requested again
+				valueMeta.Size = out_value.size();
+				valueMeta.HasEscapedChars = false;
 			}
 			else
 			{
